@@ -74,16 +74,20 @@ def netWrite (n : NodeAddr) (maxLen : Nat) (fragEnabled : Bool) (h : Header) (ms
   let okLen ← validateMsgLen maxLen fragEnabled msg.length
   let msg := if okLen then msg else pySlice msg 0 MAX_FRAG_SIZE
   let h := { h with fromNode := n.addr }
-  -- `_pre_write`: `self.frame_buf = frame`;  `_write(to_node, TX_NORMAL)`
-  let msgT ← match h.msgType with               -- `is_ack_type()`
-    | .int t => pure t
-    | .str _ => throw .typeError
-  let (hop, _, _) := logi2phys n h.toNode TX_NORMAL
+  -- `_pre_write`: `self.frame_buf = RF24NetworkFrame(); self.frame_buf.unpack(frame.pack())`: the node
+  -- works on a private copy (wire image: masked fields, integer type); `pack()` raises `TypeError`
+  -- for the type `""`.  The caller's header is not touched any further.
+  let img ← Frame.pack { header := h, message := msg }
+  let hc := (Header.unpack {} img).1
+  let msgT := match hc.msgType with
+    | .int t => t
+    | .str _ => 0
+  let (hop, _, _) := logi2phys n hc.toNode TX_NORMAL
   if hop = n.addr then
     pure { frames := [], loopback := true, header := h, message := msg }
   else do
-    let (frames, h') ← writeToPipe h msgT msg
-    pure { frames := frames, loopback := false, header := h', message := msg }
+    let (frames, _) ← writeToPipe hc msgT msg
+    pure { frames := frames, loopback := false, header := h, message := msg }
 
 /-- the `fragmentation` setter's effect on `max_message_length` (given the current flag) -/
 def fragmentationMaxLen (cur : Bool) (maxLen : Nat) (enabled : Bool) : Nat :=
